@@ -218,7 +218,8 @@ func (in *inst) rewriteGo(g *ast.GoStmt) []ast.Stmt {
 	site := in.site(g.Pos())
 	pre := []ast.Stmt{&ast.AssignStmt{Lhs: []ast.Expr{ast.NewIdent(idName)}, Tok: token.DEFINE, Rhs: []ast.Expr{call("Spawn", strLit(site))}}}
 	enter := &ast.ExprStmt{X: call("Enter", ast.NewIdent(idName))}
-	exit := &ast.DeferStmt{Call: call("Exit", ast.NewIdent(idName))}
+	exit := &ast.DeferStmt{Call: &ast.CallExpr{Fun: &ast.FuncLit{Type: &ast.FuncType{Params: &ast.FieldList{}}, Body: &ast.BlockStmt{List: []ast.Stmt{
+		&ast.ExprStmt{X: call("ExitRecover", ast.NewIdent(idName), &ast.CallExpr{Fun: ast.NewIdent("recover")})}}}}}}
 	in.gen[enter], in.gen[exit] = true, true
 	if lit, ok := g.Call.Fun.(*ast.FuncLit); ok {
 		lit.Body.List = append([]ast.Stmt{enter, exit}, lit.Body.List...)
@@ -417,6 +418,7 @@ func main() {
 	stats := map[string]int{}
 	unins := []string{}
 	resetVars := []string{}
+	unreset := []string{}
 	for _, p := range pkgs {
 		for i, f := range p.Syntax {
 			_ = i
@@ -446,6 +448,53 @@ func main() {
 		}
 		// process-wide caches: generate a reset hook so that every simulated run starts cold
 		var resets []string
+		written := map[*types.Var]bool{}
+		for _, f := range p.Syntax {
+			ast.Inspect(f, func(n ast.Node) bool {
+				root := func(e ast.Expr) {
+					for {
+						switch x := e.(type) {
+						case *ast.IndexExpr:
+							e = x.X
+						case *ast.SelectorExpr:
+							if _, isPkg := p.TypesInfo.Uses[x.Sel].(*types.Var); isPkg {
+								if v := p.TypesInfo.Uses[x.Sel].(*types.Var); v.Pkg() == p.Types && v.Parent() == p.Types.Scope() {
+									written[v] = true
+									return
+								}
+							}
+							e = x.X
+						case *ast.ParenExpr:
+							e = x.X
+						case *ast.StarExpr:
+							e = x.X
+						case *ast.Ident:
+							if v, ok := p.TypesInfo.Uses[x].(*types.Var); ok && v.Pkg() == p.Types && v.Parent() == p.Types.Scope() {
+								written[v] = true
+							}
+							return
+						default:
+							return
+						}
+					}
+				}
+				switch x := n.(type) {
+				case *ast.AssignStmt:
+					if x.Tok != token.DEFINE {
+						for _, l := range x.Lhs {
+							root(l)
+						}
+					}
+				case *ast.IncDecStmt:
+					root(x.X)
+				case *ast.UnaryExpr:
+					if x.Op == token.AND {
+						root(x.X) // address taken: may be written through the pointer
+					}
+				}
+				return true
+			})
+		}
 		for _, f := range p.Syntax {
 			if strings.HasSuffix(p.Fset.Position(f.Package).Filename, "_test.go") {
 				continue
@@ -465,6 +514,16 @@ func main() {
 						if named, ok := obj.Type().(*types.Named); ok && named.Obj().Pkg() != nil && named.Obj().Pkg().Path() == "sync" && named.Obj().Name() == "Map" {
 							resets = append(resets, n.Name+".Clear()")
 							continue
+						}
+						if written[obj] && len(vs.Values) == 0 {
+							// plain package-level state assigned at run time and starting from the zero value
+							resets = append(resets, "verifsim.Zero(&"+n.Name+")")
+							continue
+						}
+						if written[obj] {
+							if _, isMap := obj.Type().Underlying().(*types.Map); !isMap {
+								unreset = append(unreset, p.PkgPath+"."+n.Name)
+							}
 						}
 						if _, isMap := obj.Type().Underlying().(*types.Map); isMap && i < len(vs.Values) {
 							switch v := vs.Values[i].(type) {
@@ -499,5 +558,5 @@ func main() {
 			replace[filepath.Join(dir, "zz_verifreset.go")] = dst
 		}
 	}
-	json.NewEncoder(os.Stdout).Encode(map[string]any{"replace": replace, "uninstrumented": unins, "stats": stats, "reset_vars": resetVars})
+	json.NewEncoder(os.Stdout).Encode(map[string]any{"replace": replace, "uninstrumented": unins, "stats": stats, "reset_vars": resetVars, "unreset_vars": unreset})
 }
